@@ -94,7 +94,7 @@ CLAIMS = {
          "note": _NOTE, "technique": "Kani complete per-character / per-length harnesses; bounded string harnesses"},
  "C16": {"text": "Legality of every generated alias for every generator state, checksum link (lfn_checksum = specification; every slot carries it), reset/increment of next_iteration, hex encoding; the uniqueness step (after add_existing(e), generate() != e) is in the thorough tier (heavy). The scan-before-generate protocol of Dir::check_for_existence is an obligation on the real body (callees by contract); that the scan visits every live entry, and the retry-loop termination, are glue.",
          "note": _NOTE, "technique": "Kani complete harnesses over the full generator state; modular Kani harnesses: real caller body verified against callee contracts installed as #[kani::stub] with ghost state (scan protocol of Dir::check_for_existence: ghost precondition of generate())"},
- "C17": {"text": "Every per-slot function the iterator calls is total on arbitrary bytes (slot codec, short-name decode, date/time decode incl. out-of-range values, checksum); the long-name builder step is in the thorough tier. Name-length bound and 'no foreign name' lemmas are not yet discharged (see DESIGN.md).",
+ "C17": {"text": "Every per-slot function the iterator calls is total on arbitrary bytes (slot codec, short-name decode, date/time decode incl. out-of-range values, checksum); every non-allocating accessor of a returned DirEntry (attributes, kind, size, three stamps, short-name bytes, long-name units) is total and exact for every 32-byte short slot (dir::entry_accessors_total); the String-building accessors file_name / short_file_name are NOT under contract (CBMC timeout); the long-name builder step is in the thorough tier. Name-length bound and 'no foreign name' lemmas are not yet discharged (see DESIGN.md).",
          "note": _NOTE, "technique": "Kani complete harnesses over all 32-byte slots / 16-bit date-time words"},
  "C18": {"text": "Complete over the whole date/time domain: Kani function contracts on Date::encode / Time::encode (round trip at 10 ms / 2 s / 1 day resolution), decode total, setters touch only their fields, File::write stamps modified from the provider, read stamps accessed only with the option on, rename keeps stamps, a new entry (create_sfn_entry) carries all three stamps from the provider for every provider time.",
          "note": _NOTE, "technique": "Kani function contracts (proof_for_contract) + complete harnesses over every provider time; modular Kani harnesses: real caller body verified against callee contracts installed as #[kani::stub] with ghost state (create_dir / create_file)"},
